@@ -15,7 +15,30 @@
 #    define SCRIPT 0 /* 0 = operation kinds symbolic */
 #endif
 static struct aws_task_scheduler sch;
-static struct aws_task task[T];
+/* every task is its OWN top-level object: the timed heap stores task pointers in symbolic order, and a pointer that may be task+0 or
+ * task+1 of one ARRAY has a symbolic offset for CBMC (field-insensitive reads; measured in C18) */
+static struct aws_task tk0, tk1, tk2;
+static struct aws_task *const task[3] = {&tk0, &tk1, &tk2};
+/* the two pointer arrays of the timed heap are statically TYPED objects (a malloc'ed block is an array of bytes for CBMC; task pointers and
+ * back-pointers read back from such blocks end up in one value set and every later access is executed for all of them) */
+enum { QN = 7 }; /* == DEFAULT_QUEUE_SIZE (a static const in task_scheduler.c; equality asserted in the harness) */
+static struct aws_task *qdata[QN];
+static struct aws_priority_queue_node *bpA[QN + 1], *bpB[QN + 1];
+static bool bpA_live, bpB_live;
+void *verif_typed_acquire(size_t size) { /* only the back-pointer array is allocated in these programs (grows by realloc: ping-pong) */
+    ASSERT(size <= sizeof bpA && size % sizeof(void *) == 0, "harness: back-pointer array within the typed objects (bound)");
+    if (!bpA_live) { bpA_live = true; return bpA; }
+    ASSERT(!bpB_live, "harness: at most two back-pointer arrays alive (old and new during realloc)");
+    bpB_live = true;
+    return bpB;
+}
+bool verif_typed_release(void *p) {
+    if (p == (void *)bpA) { ASSERT(bpA_live, "back-pointer array released once"); bpA_live = false; return true; }
+    if (p == (void *)bpB) { ASSERT(bpB_live, "back-pointer array released once"); bpB_live = false; return true; }
+    if (p == (void *)qdata) return true;
+    return false;
+}
+static size_t task_index(const struct aws_task *p) { return p == &tk0 ? 0 : p == &tk1 ? 1 : p == &tk2 ? 2 : 99; }
 /* ghost */
 static bool pending[T], is_now[T];
 static uint64_t when[T];
@@ -39,10 +62,10 @@ static bool react_done[T];
 static void g_schedule(size_t t, bool now, uint64_t time) {
     ASSUME(!pending[t]); /* API precondition: a task is (re)scheduled only when not currently scheduled */
     pending[t] = true; is_now[t] = now; when[t] = now ? 0 : time; sched_epoch[t] = epoch; order_no[t] = ++order_ctr; scheduled_count[t]++;
-    if (now) aws_task_scheduler_schedule_now(&sch, &task[t]); else aws_task_scheduler_schedule_future(&sch, &task[t], time);
+    if (now) aws_task_scheduler_schedule_now(&sch, task[t]); else aws_task_scheduler_schedule_future(&sch, task[t], time);
 }
 static void task_fn(struct aws_task *tk, void *arg, enum aws_task_status status) {
-    size_t t = (size_t)(tk - task);
+    size_t t = task_index(tk);
     ASSERT(t < T && arg == (void *)(uintptr_t)(t + 1), "task: function gets its own task and argument");
     ASSERT(pending[t], "task: invoked only while scheduled (never twice, never without being scheduled)");
     pending[t] = false;
@@ -77,7 +100,7 @@ static void task_fn(struct aws_task *tk, void *arg, enum aws_task_status status)
         else if (act == 3 && pending[o] && o != t && !in_cancel) {
             bool sv = in_cancel; size_t st = cancel_target;
             in_cancel = true; cancel_target = o;
-            aws_task_scheduler_cancel_task(&sch, &task[o]);
+            aws_task_scheduler_cancel_task(&sch, task[o]);
             in_cancel = sv; cancel_target = st;
             ASSERT(!pending[o], "cancel from inside a task invokes the target synchronously");
         }
@@ -95,13 +118,14 @@ void h_sched_program(void) {
 #ifdef DIRECT_INIT
     /* exactly the state aws_task_scheduler_init produces (checked by the INIT job), written field by field: after the library's
      * AWS_ZERO_STRUCT (memset) CBMC treats the whole struct as a byte array and loses constant propagation of item_size etc. */
+    ASSERT(DEFAULT_QUEUE_SIZE == QN, "harness: typed queue array has the default queue size");
     sch.alloc = verif_allocator();
     sch.timed_queue.pred = s_compare_timestamps;
     sch.timed_queue.container.alloc = verif_allocator();
     sch.timed_queue.container.current_size = DEFAULT_QUEUE_SIZE * sizeof(struct aws_task *);
     sch.timed_queue.container.length = 0;
     sch.timed_queue.container.item_size = sizeof(struct aws_task *);
-    sch.timed_queue.container.data = verif_malloc(DEFAULT_QUEUE_SIZE * sizeof(struct aws_task *));
+    sch.timed_queue.container.data = qdata;
     sch.timed_queue.backpointers.alloc = NULL; sch.timed_queue.backpointers.current_size = 0; sch.timed_queue.backpointers.length = 0;
     sch.timed_queue.backpointers.item_size = 0; sch.timed_queue.backpointers.data = NULL;
     aws_linked_list_init(&sch.timed_list);
@@ -114,7 +138,7 @@ void h_sched_program(void) {
            sch.timed_queue.backpointers.data == NULL && sch.timed_queue.backpointers.alloc == NULL && sch.timed_queue.backpointers.length == 0 &&
            aws_linked_list_empty(&sch.timed_list) && aws_linked_list_empty(&sch.asap_list), "init produces exactly the state the DIRECT_INIT jobs start from");
 #endif
-    for (size_t t = 0; t < T; ++t) aws_task_init(&task[t], task_fn, (void *)(uintptr_t)(t + 1), "t");
+    for (size_t t = 0; t < T; ++t) aws_task_init(task[t], task_fn, (void *)(uintptr_t)(t + 1), "t");
     epoch = 1;
     static const char ops[] = OPS; /* operation kinds and task indices are fixed per job; times are symbolic */
     size_t pc = 0;
@@ -130,7 +154,7 @@ void h_sched_program(void) {
             ASSUME(pending[t]); /* API precondition: cancel a scheduled task */
             in_cancel = true; cancel_target = t;
             unsigned before = invoked[t];
-            aws_task_scheduler_cancel_task(&sch, &task[t]);
+            aws_task_scheduler_cancel_task(&sch, task[t]);
             in_cancel = false;
             ASSERT(invoked[t] == before + 1 && !pending[t], "cancel: the task's function is invoked exactly once, synchronously");
         } else if (op == 4) {
